@@ -9,4 +9,11 @@ RestartNext == /\ Len(hist) < MaxOps
                   \/ (Len(hist) \in {3, 4} /\ Restart /\ \A i \in 1..Len(hist) : hist[i].op # "Restart")
                   \/ ((\E i \in 1..Len(hist) : hist[i].op = "Restart") /\ Next)
 RestartSpec == Init /\ [][RestartNext]_vars
+(* every way to build a forest in up to four register / connect steps (also re-parenting to an agent that registered later),
+   then the restart *)
+RebuildNext == \/ (Len(hist) < 4 /\ (\A i \in 1..Len(hist) : hist[i].op # "Restart") /\ Building /\ last'.op # "none"
+                    /\ (vars' # vars) /\ <<reg, ptr, links>>' # <<reg, ptr, links>>)
+               \/ (Len(hist) \in 2..4 /\ Restart /\ \A i \in 1..Len(hist) : hist[i].op # "Restart")
+RebuildSpec == Init /\ [][RebuildNext]_vars
+EmitRebuild == (Len(hist) >= 3 /\ hist[Len(hist)].op = "Restart") => PrintT(<<"BEHAVIOUR", ToJson(hist)>>)
 =============================================================================
